@@ -8,6 +8,9 @@ def toml_str(s):
     """TOML basic string in the one spelling that the toml 0.10.2 library (bumpver's parser) reads back exactly
     for every content (measured on 3*10^5 random strings): backslash doubled; quote, comma and control characters
     as \\uXXXX.  (Literal strings and \\" are mis-read by that library for strings starting with ',' or equal to '"'.)"""
+    if s.startswith('""') or s.startswith("''"):
+        # toml 0.10.2 takes a value that starts with two quotes for a multi-line string even when they are escaped
+        raise ValueError("not expressible with toml 0.10.2: value starting with two quotes: %r" % s)
     out = ['"']
     for c in s:
         if c == "\\":
@@ -236,7 +239,7 @@ NAMES = ["README.md", "setup.py", "src/pkg/__init__.py", "docs/conf.py", "CHANGE
 
 
 def gen_project(d, vast, state, pep_shaped, max_files=5, max_patterns=4, unicode_text=False, regimes=None, share_lines=True,
-                allow_glob=True, allow_partial=True, once_each=False):
+                allow_glob=True, allow_partial=True, once_each=False, cover_config=False):
     nfiles = d.int(1, max_files)
     names = d.shuffle(NAMES)[:nfiles]
     patterns, entries, files = [], [], []
@@ -263,6 +266,14 @@ def gen_project(d, vast, state, pep_shaped, max_files=5, max_patterns=4, unicode
             patterns += pats
             entries.insert(d.int(0, len(entries)), [g1, [len(patterns) - 1]])
             file_pat[g1] = file_pat[g1] + [len(patterns) - 1]
+    config_marks = []
+    if cover_config:
+        # a glob entry that also covers the config file itself: its pattern is planted in a comment line of the
+        # config; the implicit entry for the current_version line must still be there
+        d1, d2 = "mark%d <" % len(patterns), ">"
+        patterns.append({"kind": "version", "raw": d1 + "{version}" + d2, "ast": [["lit", d1]] + vast + [["lit", d2]], "d1": d1, "d2": d2})
+        config_marks.append(len(patterns) - 1)
+        entries.insert(d.int(0, len(entries)), ["*.toml", [len(patterns) - 1]])
     for name, idx in file_pat.items():
         regime = d.choice(regimes) if regimes else None
         files.append(gen_file(d, name, idx, len(patterns), regime, unicode_text, share_lines, once_each or (regime or "") == "mixed"))
@@ -279,7 +290,7 @@ def gen_project(d, vast, state, pep_shaped, max_files=5, max_patterns=4, unicode
             content += occurrence_text(patterns[0], vast, state) + "\n"  # would match, but is not configured
         bystanders.append({"path": "other/bystander%d.txt" % j, "content": content})
     return {"ast": vast, "state": state, "pep_shaped": pep_shaped, "patterns": patterns, "entries": entries, "files": files,
-            "bystanders": bystanders, "explicit_config_entry": d.chance(1, 4)}
+            "bystanders": bystanders, "explicit_config_entry": d.chance(1, 4), "config_marks": config_marks}
 
 
 def project_config(spec, old, options=None):
@@ -287,7 +298,11 @@ def project_config(spec, old, options=None):
     if spec.get("explicit_config_entry"):
         files.insert(0, ["bumpver.toml", ['current_version = "{version}"']])
     vp = spec.get("pattern_text") or pattern_str(spec["ast"])
-    return toml_config({"current_version": old, "version_pattern": vp, "options": options or {}, "files": files})
+    text = toml_config({"current_version": old, "version_pattern": vp, "options": options or {}, "files": files})
+    for i in spec.get("config_marks", []):
+        pat = spec["patterns"][i]
+        text += "# %s%s%s\n" % (pat["d1"], old, pat["d2"])
+    return text
 
 
 def materialize(spec, root, state, options=None):
